@@ -146,8 +146,16 @@ DAfterOK(e) ==
 Structural(e) == e.op \in {"new_cells", "del_cells", "rename_cells", "new_space", "del_space",
                             "rename_space", "add_bases", "remove_bases", "set_formula"}
 Accepted(e) == IF e.op = "call" THEN TRUE ELSE e.res = "ok"
-DAfter(e)   == IF e.op = "call" \/ ~Accepted(e) THEN D
-               ELSE IF Structural(e) THEN KillDangling(DAfterOK(e)) ELSE DAfterOK(e)
+\* values assigned inside ItemSpaces live as long as the instance does; when an
+\* instance is discarded is constrained by C07 (never stale), not by C06, so the
+\* survivors logged by the code are adopted (they can only disappear)
+DynAdopt(DD, e) ==
+    LET logged == Range(e.post.inputs) IN
+    [DD EXCEPT !.inp = Drop(@, {n \in DOMAIN @ : Len(n[2]) > 0 /\ n \notin logged})]
+DAfter(e)   == IF e.op = "call" THEN DynAdopt(D, e)
+               ELSE IF ~Accepted(e) THEN D
+               ELSE IF Structural(e) THEN DynAdopt(KillDangling(DAfterOK(e)), e)
+               ELSE DynAdopt(DAfterOK(e), e)
 
 \* events after which the surviving inputs are fixed by the properties
 InputsDetermined(e) ==
@@ -197,6 +205,8 @@ AllViol(e, D2, ta) ==
           THEN DefsLabels(Tag, D2, e.post.defs) ELSE {})
     \cup (IF "handles" \in DOMAIN e.post
           THEN HandleLabels(Tag, D2, Range(e.post.handles)) ELSE {})
+    \cup (IF "items" \in DOMAIN e.post
+          THEN ItemLabels(Tag, D, D2, e, Range(e.post.items)) ELSE {})
     \cup EventViol(e, D2, ta)
 
 -----------------------------------------------------------------------------
